@@ -109,6 +109,18 @@ func genData(t *rapid.T, maxFrag int) []byte {
 	return b
 }
 
+// frameLenReader: a schedReader with a Len method that reports the bytes left in the chunk ("frame") it is delivering
+type frameLenReader struct{ *schedReader }
+
+func (r frameLenReader) Len() int {
+	if r.ci < len(r.chunks) && r.off < r.limit() {
+		if n := r.chunks[r.ci%len(r.chunks)]; n < r.limit()-r.off {
+			return n % 3 // (0 now and then: nothing left of this frame)
+		}
+	}
+	return 0
+}
+
 func genReader(t *rapid.T, data []byte, allowFail bool) *schedReader {
 	r := &schedReader{data: data, failAt: -1}
 	r.chunks = rapid.SliceOfN(rapid.OneOf(rapid.IntRange(0, 4), rapid.IntRange(0, 40), rapid.Just(1), rapid.Just(100000)), 1, 8).Draw(t, "chunks")
@@ -148,10 +160,19 @@ func TestProp_History(t *testing.T) {
 		inMemory := rapid.IntRange(0, 9).Draw(t, "inMemory") == 0
 		if inMemory {
 			z = buffer.NewStreamLexerSize(&bytesReader{append([]byte(nil), data...)}, size)
-		} else if r = genReader(t, data, true); size == 4096 {
-			z = buffer.NewStreamLexer(r) // the constructor without a size: 4096
 		} else {
-			z = buffer.NewStreamLexerSize(r, size)
+			r = genReader(t, data, true)
+			var rd io.Reader = r
+			if rapid.IntRange(0, 3).Draw(t, "framelen") == 0 {
+				// a reader that also has a Len method, which tells how much of the current frame is left (0 between two
+				// frames): what the reader delivers is the data, whatever else it can tell
+				rd = frameLenReader{r}
+			}
+			if size == 4096 {
+				z = buffer.NewStreamLexer(rd) // the constructor without a size: 4096
+			} else {
+				z = buffer.NewStreamLexerSize(rd, size)
+			}
 		}
 		L := len(data)
 		if r != nil {
@@ -507,6 +528,11 @@ func (r *zeroAllocReader) Read(p []byte) (int, error) {
 	return n, nil
 }
 
+// lenReader: the stream with a Len method that tells how much is left
+type lenReader struct{ *zeroAllocReader }
+
+func (r lenReader) Len() int { return r.n - r.off }
+
 // heldBytes runs a stream of n bytes in tokens of length T, freeing every token (immediately or delayed), and returns the
 // live heap (after GC, lexer still reachable) attributable to the lexer.
 // lexeme: the token is looked at with Lexeme() half way and just before it is shifted (a refill that follows keeps the
@@ -516,10 +542,14 @@ var lexemeMode bool
 func heldBytes(n, B, T, chunk, delay int) (uint64, error) {
 	lexeme := lexemeMode
 	r := &zeroAllocReader{n: n, chunk: chunk}
+	var rd io.Reader = r
+	if (n+B+T+chunk+delay)%2 == 0 {
+		rd = lenReader{r} // a reader that knows how much is left, like strings.Reader
+	}
 	var m0, m1 runtime.MemStats
 	runtime.GC()
 	runtime.ReadMemStats(&m0)
-	z := buffer.NewStreamLexerSize(r, B)
+	z := buffer.NewStreamLexerSize(rd, B)
 	pendingBuf := [4]int{}
 	np := 0
 	off := 0
